@@ -129,14 +129,25 @@ def run_property(prop_id, body, trace):
     """Wrap a property's execute body: maps Violation / Discard to verdicts."""
     from . import simclock
 
+    import time as _time
+
     simclock.install()
     simclock.set_now(simclock.DEFAULT_NOW)
     reads0 = simclock.reads
     run = Run(trace)
+    # the process environment is part of the trace: a time zone (with offset changes) for the whole run
+    zone = (trace.get("config") or {}).get("process_tz")
+    if zone:
+        os.environ["TZ"] = zone
+        _time.tzset()
+        run.stats["reach:process_zone_with_offset_changes"] += 1
     try:
         try:
             body(run)
         finally:
+            if zone:
+                os.environ["TZ"] = "UTC"
+                _time.tzset()
             if simclock.reads != reads0:
                 run.stats["reach:simulated_clock_reads_by_library"] += simclock.reads - reads0
     except Violation as v:
